@@ -173,8 +173,20 @@ class Ctx:
             shutil.copyfile(src, os.path.join(d, dst))
         return d
 
-    def tlc(self, module, cfg, workers=None, timeout=1800, extra_files=(), simulate=None,
-            depth=None, coverage=False, dfs=False, xss="64m", heap=None, jvm=(), args=()):
+    def tlc(self, module, cfg, workers=None, **kw):
+        """Run TLC; an internal TLC failure ("TLC threw an unexpected exception": seen once in ~10^3 runs
+        with 16 workers and PrintT-heavy generator configs) is an infrastructure flake, never a verdict:
+        the run is repeated (then with fewer workers) before it is reported as an infrastructure error."""
+        r = self._tlc_once(module, cfg, workers=workers, **kw)
+        for attempt in (1, 2):
+            if not (r.other_error and "unexpected exception" in r.out):
+                break
+            self.notes.append("TLC internal exception in %s/%s, retry %d" % (module, cfg, attempt))
+            r = self._tlc_once(module, cfg, workers=max(1, (workers or NCPU) // (2 * attempt)), **kw)
+        return r
+
+    def _tlc_once(self, module, cfg, workers=None, timeout=1800, extra_files=(), simulate=None,
+                  depth=None, coverage=False, dfs=False, xss="64m", heap=None, jvm=(), args=()):
         """Run TLC on spec/<module>.tla with spec/<cfg> in a private scratch copy."""
         d = self._tlcdir(module, extra_files)
         if not workers:
